@@ -451,8 +451,8 @@ MUTANTS = [
          old="                    self.push_jump_back_op(JumpBack, &[], loop_start_ip)?;\n\n                    CompileNodeOutput::none()", new="                    self.push_jump_back_op(JumpBack, &[], loop_start_ip + 1)?;\n\n                    CompileNodeOutput::none()", expect="V-codegen2::Compiler::compile_node__continue_arm::null_then_back_to_the_start_of_the_loop"),
     dict(name="codegen2_range_inclusive_flag_inverted", kind="break", prop="C01", units=["V-codegen2"], file="crates/bytecode/src/compiler.rs",
          old="                    let op = if *inclusive { RangeInclusive } else { Range };", new="                    let op = if *inclusive { Range } else { RangeInclusive };", expect="V-codegen2::Compiler::compile_node__range_arm::start_then_end_then_the_range"),
-    dict(name="codegen2_range_end_before_start", kind="break", prop="C01", units=["V-codegen2"], file="crates/bytecode/src/compiler.rs",
-         old="                    let start_result = self.compile_node(*start, ctx.with_any_register())?;\n                    let end_result = self.compile_node(*end, ctx.with_any_register())?;", new="                    let end_result = self.compile_node(*end, ctx.with_any_register())?;\n                    let start_result = self.compile_node(*start, ctx.with_any_register())?;", expect="V-codegen2::Compiler::compile_node__range_arm::start_then_end_then_the_range"),
+    dict(name="codegen2_range_bounds_swapped", kind="break", prop="C01", units=["V-codegen2"], file="crates/bytecode/src/compiler.rs",
+         old="                            result_register,\n                            start_result.unwrap(self)?,\n                            end_result.unwrap(self)?,", new="                            result_register,\n                            end_result.unwrap(self)?,\n                            start_result.unwrap(self)?,", expect="V-codegen2::Compiler::compile_node__range_arm::start_then_end_then_the_range"),
     dict(name="codegen2_range_one_temporary_not_released", kind="break", prop="C01", units=["V-codegen2"], file="crates/bytecode/src/compiler.rs",
          old="                    if start_result.is_temporary {\n                        self.pop_register()?;\n                    }\n                    if end_result.is_temporary {", new="                    if end_result.is_temporary {", expect="V-codegen2::Compiler::compile_node__range_arm::temporaries_released"),
     # ---- V-callseq
